@@ -11,22 +11,11 @@ NOTES = ("All checks: ./check Cxx --tier quick|thorough (cwd /verif). Every run 
 
 NOT_CLAIMED = {}
 
-BASE_NOTE = ("Trusted: Coq 8.16.1 kernel and vm_compute (no native_compute, no extraction); the Python driver that maps "
-             "implementation behaviour to observation terms and the case generator; ")
-
-CLAIMED = {
-    "C07": dict(
-        text=("Proof: for every item validator (accepting, rejecting, converting), every start state and every history over all "
-              "13 TraitSet mutators plus copy operations, the Gallina model of trait_set_object.TraitSet satisfies the whole "
-              "property law (refinement of the built-in set on validated items incl. exception class, failing operation inert, "
-              "exactly one event iff the contents changed, delta law removed ⊆ old / added ∩ old = ∅ / (old∖removed)∪added = new, "
-              "copies equal and validating) — theorems law_holds_on_every_history, refines_builtin_set, delta_law, "
-              "silent_iff_unchanged_and_single_event, failing_op_inert, xor_is_builtin_for_nonconverting_validators, closed under "
-              "the global context. The hand-written model is tied to the current tree by running generated histories on "
-              "TraitSet and on Set-trait TraitSetObject values (copy, deepcopy, pickle protocols 0-5 included) and comparing "
-              "every step inside Coq; the same boolean law is evaluated on the implementation's own observations, so a "
-              "violating implementation yields a concrete replay."),
-        note=BASE_NOTE + "modelled not verified: CPython's set (Common/LSet.v, lists compared extensionally), copy/pickle "
-             "protocols (the model's Copy step is 'equal contents, same validator, no notifiers'; the driver probes the real copy); "
-             "no axioms (Print Assumptions: Closed under the global context)."),
-}
+import glob, json, os
+CLAIMED = {}
+for _f in sorted(glob.glob(os.path.join(os.path.dirname(os.path.abspath(__file__)), "manifest.d", "C*.json"))):
+    _d = json.load(open(_f))
+    if _d.get("claimed", True):
+        CLAIMED[os.path.basename(_f)[:-5]] = _d
+    else:
+        NOT_CLAIMED[os.path.basename(_f)[:-5]] = _d["reason"]
